@@ -88,7 +88,7 @@ fn rt_mc_fixed_cmds() {
 }
 
 //@h id=rt_mc_group_status_ans props=C19 tier=quick build=enc cost=60 timeout=900
-//@bounds McGroupStatusAns with 0..=4 reported groups (count concrete per instance), any NbTotalGroups, any distinct admissible group ids 0..=3 in any order, any addresses: the parsed command reports the mask, the total and every item that was pushed
+//@bounds McGroupStatusAns with 0..=4 reported groups (count concrete per instance), any NbTotalGroups, any distinct admissible group ids 0..=3 in any order, any addresses, NbTotalGroups set at any position among the pushes (and optionally again at the end): the parsed command reports the mask, the total and every item that was pushed
 //@encodes McGroupStatusAnsCreator::{new, nb_total_groups, push, build, len}, McGroupStatusAnsPayload::{new, required_len, ans_group_mask, nb_total_groups, item_iterator}
 #[kani::proof]
 #[kani::unwind(8)]
@@ -102,15 +102,24 @@ fn rt_mc_group_status_ans() {
     kani::assume(ids[0] < 4 && ids[1] < 4 && ids[2] < 4 && ids[3] < 4);
     kani::assume(ids[0] != ids[1] && ids[0] != ids[2] && ids[0] != ids[3] && ids[1] != ids[2] && ids[1] != ids[3] && ids[2] != ids[3]);
     let mut c = McGroupStatusAnsCreator::new();
-    c.nb_total_groups(total);
+    // the setters commute: NbTotalGroups may be set before, between or after the pushes (the
+    // device sets it last), and may be set more than once
+    let at: usize = kani::any();
+    kani::assume(at <= 4);
     let mut mask = 0u8;
     let mut i = 0;
     while i < 4 {
+        if i == at {
+            c.nb_total_groups(total);
+        }
         if i < k {
             assert!(c.push(ids[i], McAddr::from_wire_bytes(addrs[i])).is_ok(), "C19: an admissible group is accepted");
             mask |= 1 << ids[i];
         }
         i += 1;
+    }
+    if at == 4 || kani::any() {
+        c.nb_total_groups(total);
     }
     let bytes = c.build();
     assert!(bytes.len() == 2 + 5 * k, "C19: McGroupStatusAns length");
